@@ -116,3 +116,13 @@ MUTANTS = {
         ("src/response.rs", "                    if data_length >= 1 {", "                    if data_length > 1 {"),
     ],
 }
+
+# mutants found by tools/mutation_sweep.py (generic operators; each passes the 38 tests and was killed by the unit), written out
+# as text by tools/gen_sweep_mutants.py
+import json as _json, os as _os
+_p = _os.path.join(_os.path.dirname(_os.path.abspath(__file__)), "mutants_sweep.json")
+if _os.path.exists(_p):
+    for _u, _l in _json.load(open(_p)).items():
+        for _f, _old, _new, _what in _l:
+            if (_f, _old, _new) not in MUTANTS.setdefault(_u, []):
+                MUTANTS[_u].append((_f, _old, _new))
